@@ -307,7 +307,7 @@ impl<'a> G<'a> {
             }
             7 => {
                 let b = self.pick(g).unwrap_or(a);
-                { let st__ = Step::Sel { g, dst, a, b, c: self.rng.below(2) as u8, via: self.rng.below(2) as u8 }; self.emit(st__); }
+                { let st__ = Step::Sel { g, dst, a, b, c: self.rng.below(2) as u8, via: self.rng.below(3) as u8 }; self.emit(st__); }
             }
             8 | 9 => {
                 { let st__ = Step::Cmp { g, a }; self.emit(st__); }
